@@ -53,7 +53,8 @@ ASSUMPTIONS = [
     'does so); arithmetic on an empty cell must give the number (=REF+0 is 0)',
     'cells hold numbers, texts that are not numerals, booleans or formulas with scalar results; a formula whose '
     'result is an array is only used as a probe',
-    'COUNTA probes address at most 200 cells (C14 D1404); workbooks are acyclic',
+    'COUNTA probes address at most 200 cells (C14 D1404); workbooks are acyclic; reference chains are at most 200 '
+    'formula cells deep (about 245 is where the interpreter raises RecursionError on this tree; the models use fuel 400)',
     'reversed corners (B2:A1), multi-area texts (A1,B2) and malformed texts given to resolve_ranges are compared '
     'with the model only (the statement is silent)',
     'references to undefined names are outside the domain',
@@ -469,22 +470,48 @@ def gen_scenario(rng, mode=None, via=None, special_sheet=None):
                         put(s, c, r, {'f': a})
                     else:
                         put(s, c, r, gen_value(rng))
-    # cross-sheet chain: column kc holds the chain, column kc+1 each sheet's own constants
+    # reference chain: column kc holds the chain, column kc+1 the constants of the sheets.  Depth 2 .. 200 formula
+    # cells (the interpreter's own limit is about 245 on this tree), crossing to another sheet at every hop or
+    # staying on one sheet, every spelling of the reference; it is evaluated from the far end (below)
     kc = oc + w + 3
-    depth = rng.randint(2, 9)
+    dk = rng.random()
+    if dk < 0.6:
+        depth = rng.randint(2, 9)
+    elif dk < 0.8:
+        depth = rng.randint(10, 100)
+    else:
+        depth = rng.choice([rng.randint(101, 200), rng.randint(101, 200), 120, 126, 128, 140, 160, 180, 200])
     crow = orow
-    for s in sheets:
-        for i in range(depth + 1):
-            put(s, kc + 1, crow + i, rng.randint(1, 9999))
+    cross = len(sheets) > 1 and rng.random() < 0.65
+    base = rng.randrange(len(sheets))
+    seq = [sheets[(base + i) % len(sheets)] if cross else sheets[base] for i in range(depth + 1)]
+
+    def need_const(sheet, row):
+        if (sheet, kc + 1, row) not in content:
+            put(sheet, kc + 1, row, rng.randint(1, 9999))
+
+    if depth <= 9:
+        for s in sheets:                      # every sheet has its own constants: a wrong sheet shows
+            for i in range(depth + 1):
+                need_const(s, crow + i)
     for i in range(depth):
-        s = sheets[i % len(sheets)]
-        nxt = sheets[(i + 1) % len(sheets)]
-        own = ref_cell(rng, s, kc + 1, crow + i, s)
-        if rng.random() < 0.3:
-            own = ['u', 0, ref_range(rng, s, kc + 1, crow + i, kc + 1, crow + i + 1, s)]
+        s, nxt = seq[i], seq[i + 1]
         step = ref_cell(rng, nxt, kc, crow + i + 1, s, force_qualified=(nxt != s))
-        put(s, kc, crow + i, {'f': ['b', 0, own, step]})
-    last = sheets[depth % len(sheets)]
+        form = rng.random()
+        if form < 0.55:
+            need_const(s, crow + i)
+            own = ref_cell(rng, s, kc + 1, crow + i, s)
+            if rng.random() < (0.3 if depth <= 9 else 0.05):
+                need_const(s, crow + i + 1)
+                own = ['u', 0, ref_range(rng, s, kc + 1, crow + i, kc + 1, crow + i + 1, s)]
+            a = ['b', 0, own, step]
+        elif form < 0.85:
+            a = ['b', rng.choice([0, 0, 1]), step, ['n', rng.randint(0, 9)]]
+        else:
+            a = step
+        put(s, kc, crow + i, {'f': a})
+    last = seq[depth]
+    need_const(last, crow + depth)
     put(last, kc, crow + depth, {'f': ref_cell(rng, last, kc + 1, crow + depth, last)})
     # dependency block: level 0 = inputs (column dcol on one sheet), level 1 = formulas over level 0 on another
     # sheet (column dcol+1), level 2 = formulas over level 1 on a third (column dcol+2); rows crow .. crow+2
@@ -607,24 +634,27 @@ def gen_scenario(rng, mode=None, via=None, special_sheet=None):
             else:
                 add_probe(here, ['u', 0, a] if rng.random() < 0.7 else a)
         else:
-            add_probe(here, ref_cell(rng, sheets[0], kc, crow, here, force_qualified=True))
+            add_probe(here, ref_cell(rng, seq[0], kc, crow, here, force_qualified=True))
     # the chain itself, read directly and through a reference
-    probes.append({'sheet': sheets[0], 'col': kc, 'row': crow})
-    add_probe(rng.choice(sheets), ref_cell(rng, sheets[0], kc, crow, sheets[0], force_qualified=True))
+    probes.append({'sheet': seq[0], 'col': kc, 'row': crow})
+    add_probe(rng.choice(sheets), ref_cell(rng, seq[0], kc, crow, seq[0], force_qualified=True))
     # set_cell_value steps: inputs of the dependency block (depth 1, 2 and 3 below the three range probes), a chain
     # constant, constants and empty cells of the used area
     updates = []
     if rng.random() < 0.8:
         for i in rng.sample(range(drows), rng.randint(1, drows)):
             updates.append({'sheet': dsheets[0], 'col': dcol, 'row': crow + i, 'v': rng.randint(100, 9999)})
-        s_ = rng.choice(sheets)
-        updates.append({'sheet': s_, 'col': kc + 1, 'row': crow + rng.randrange(depth + 1), 'v': rng.randint(10000, 99999)})
+        # the start of the chain (its far end is probed), and a constant somewhere along it
+        updates.append({'sheet': last, 'col': kc + 1, 'row': crow + depth, 'v': rng.randint(10000, 99999)})
+        consts = [k for k in content if k[1] == kc + 1 and not isinstance(content[k], dict)]
+        s_, c_, r_ = rng.choice(consts)
+        updates.append({'sheet': s_, 'col': c_, 'row': r_, 'v': rng.randint(10000, 99999)})
         for _ in range(rng.randint(0, 3)):
             s_, c_, r_ = rng.choice(sheets), rng.randrange(oc, oc + w), rng.randrange(orow, orow + h)
             if not isinstance(content.get((s_, c_, r_)), dict):
                 updates.append({'sheet': s_, 'col': c_, 'row': r_, 'v': rng.randint(1000, 9999)})
     scn = {'default': default, 'via': via, 'sheets': sheets, 'cells': cells, 'names': names, 'probes': probes,
-           'shape': f'{nsheets}sh/{mode}/{h}x{w}@{colname(oc)}{orow}/{via}'}
+           'shape': f'{nsheets}sh/{mode}/{h}x{w}@{colname(oc)}{orow}/{via}/chain{depth}{"x" if cross else ""}'}
     if updates:
         scn['updates'] = updates
     return scn
@@ -744,6 +774,19 @@ def fixed_scenarios():
         out.append((f'same-rectangle-two-sheets-{k}', {'default': S1, 'via': 'dict', 'names': [],
                     'cells': data + [_c(here, 16, 1, _f(a))], 'probes': [{'sheet': here, 'col': 16, 'row': 1}],
                     'shape': f'same-rectangle-{k}'}))
+    # deep reference chains, evaluated from the far end on a fresh model and again after the start changed:
+    # alternating between two sheets with quoted $-absolute references, and unqualified on one sheet
+    for n in (60, 130, 200):
+        cs = [_c(S1, 1, 1, 1), _c(S1, 2, 1, 1)]
+        for i in range(2, n + 1):
+            sh, prev = (S1, 'Other Sheet') if i % 2 else ('Other Sheet', S1)
+            raw = f"'{prev}'!$A${i - 1}" if ' ' in prev else f'{prev}!A{i - 1}'
+            cs.append(_c(sh, 1, i, _f(['b', 0, ['r', raw, 'c', prev, 1, i - 1, 1, i - 1], ['n', 1]])))
+            cs.append(_c(S1, 2, i, _f(['b', 0, ['r', f'B{i - 1}', 'c', None, 2, i - 1, 2, i - 1], ['n', 1]]), False))
+        out.append((f'deep-chain-{n}', {'default': S1, 'via': 'dict', 'names': [], 'cells': cs,
+                    'probes': [{'sheet': S1 if n % 2 else 'Other Sheet', 'col': 1, 'row': n}, {'sheet': S1, 'col': 2, 'row': n}],
+                    'updates': [{'sheet': S1, 'col': 1, 'row': 1, 'v': 1000}, {'sheet': S1, 'col': 2, 'row': 1, 'v': 500}],
+                    'shape': f'deep-chain-{n}'}))
     # D0304 (known): a name on a cell that is empty at build time, filled later
     cs = [_c(S1, 1, 2, 7), _c(S1, 16, 1, _f(['b', 0, ['r', 'nm', 'n', 'nm', 0, 0, 0, 0], ['n', 0]])),
           _c(S1, 16, 2, _f(['b', 0, ['r', '$A$1', 'c', None, 1, 1, 1, 1], ['r', 'A2', 'c', None, 1, 2, 1, 2]]))]
@@ -1222,7 +1265,9 @@ def run(ctx):
                 'blanks, apostrophes, digits, non-ASCII), a used area that is small / wide / long (90-320 rows) / a '
                 '9-14 square block at origins around Z|AA, ZZ|AAA and rows 9|10, 99|100, dense to empty, formula cells and a '
                 'chain that crosses the sheets repeatedly with unqualified own-sheet operands, defined names on cells '
-                'and ranges, a three-level dependency block across sheets; probes =REF, =REF+0, =R (array), =SUM(R), '
+                'and ranges, a reference chain of 2..200 formula cells (60% 2-9, 20% 10-100, 20% 101-200; crossing to '
+                'another sheet at every hop or on one sheet; steps own+next, next+n, next) that is evaluated from the far '
+                'end, a three-level dependency block across sheets; probes =REF, =REF+0, =R (array), =SUM(R), '
                 '=COUNTA(R), =name, =SUM(name), evaluate(name), two or three references with EQUAL coordinates on different '
                 'sheets in one formula (=SUM(R1)-SUM(R2), =c1+c2, =COUNTA+COUNTA); every probe is evaluated again on the same '
                 'model after set_cell_value steps on inputs 1, 2 and 3 levels below range members, chain constants, area '
